@@ -30,6 +30,7 @@ import h5py
 import numpy as np
 
 from harness import gen, trees, pipeline, fstrace
+from harness.props import c19_tracker
 
 CODES = {1: 'read of a path that is neither an input nor made by this run',
          2: 'write to an existing path not made by this run',
@@ -1011,6 +1012,7 @@ def run(ctx):
         shutil.rmtree(ctx.scratch / f's{k}', ignore_errors=True)
     for k in range(ctx.n(2, 10)):
         history_assign(ctx, k)
+    c19_tracker.run_part(ctx)
 
 
 def replay(ctx, rec):
